@@ -875,12 +875,16 @@ func (em *emitter) emitBuiltin(call *ast.Call, reg int8, dstType reflect.Type) {
 			}
 			em.fb.exitStack()
 		} else {
-			for _, argExpr := range args {
-				em.fb.enterStack()
-				arg := em.emitExpr(argExpr, emptyInterfaceType)
-				em.fb.emitPrint(arg)
-				em.fb.exitStack()
+			// Evaluate all the arguments before printing the first one.
+			em.fb.enterStack()
+			argRegs := make([]int8, len(args))
+			for i, argExpr := range args {
+				argRegs[i] = em.emitExpr(argExpr, emptyInterfaceType)
 			}
+			for _, arg := range argRegs {
+				em.fb.emitPrint(arg)
+			}
+			em.fb.exitStack()
 		}
 	case "println":
 		if em.isSpecialCall(args) {
@@ -905,7 +909,13 @@ func (em *emitter) emitBuiltin(call *ast.Call, reg int8, dstType reflect.Type) {
 			}
 			em.fb.exitStack()
 		} else {
+			// Evaluate all the arguments before printing the first one.
+			em.fb.enterStack()
+			argRegs := make([]int8, len(args))
 			for i, argExpr := range args {
+				argRegs[i] = em.emitExpr(argExpr, emptyInterfaceType)
+			}
+			for i, arg := range argRegs {
 				if i > 0 {
 					em.fb.enterStack()
 					str := em.fb.makeStringValue(" ")
@@ -914,11 +924,9 @@ func (em *emitter) emitBuiltin(call *ast.Call, reg int8, dstType reflect.Type) {
 					em.fb.emitPrint(sep)
 					em.fb.exitStack()
 				}
-				em.fb.enterStack()
-				arg := em.emitExpr(argExpr, emptyInterfaceType)
 				em.fb.emitPrint(arg)
-				em.fb.exitStack()
 			}
+			em.fb.exitStack()
 		}
 		em.fb.enterStack()
 		str := em.fb.makeStringValue("\n")
